@@ -14,8 +14,11 @@ import Tickit.Driver.Common
   they must equal the VT's initial ones (`teardown_restores`) - the mode state at hand-over is a parameter of
   the history (`new … vis=0`: the cursor is hidden; the replies fed must be those of such a terminal, and the
   program then leaves cursor visibility alone: `handoverOk`); every read-back must equal the ghost
-  (`getctl_last_set`).  The contract (documented API use) is tracked explicitly: between pause and
-  resume nothing but resume/teardown/unref, after teardown nothing but unref, mouse modes 0…3, text
+  (`getctl_last_set`).  The contract is tracked explicitly (`phaseNextW`): the program may go on setting controls,
+  changing the pen and writing between pause and resume (the property quantifies over these in any order relative to
+  pause/resume cycles) - the terminal then shows a mixture of the restored state and what was set since, so only
+  the read-backs are judged until the next resume (running clauses) or teardown / destruction (restoration
+  clause); no second pause while paused, no resume without pause, after teardown nothing but unref, mouse modes 0…3, text
   payloads without control bytes; the RGB8 capability does not change while the pen asked for holds an RGB8
   colour.  Outside the contract only model = implementation is compared.
 
